@@ -3,4 +3,6 @@ EXTENDS QuorumMulti
 \* 2..3 replication sets of 1..2 instances
 ShapesQuick    == {<<1, 1>>, <<2, 1>>}
 ShapesThorough == {<<1, 1>>, <<2, 1>>, <<1, 2>>, <<2, 2>>, <<1, 1, 1>>, <<2, 1, 1>>}
+\* with the in-flight tracker (callbacks calling their CancelCauseFunc at any time); <<1>>: one set = delegation
+ShapesDoneQuick == {<<1>>, <<1, 1>>}
 =============================================================================
